@@ -11,7 +11,7 @@ from typing import List, Optional
 from ..absint import NONE, Const, Interp, Tup
 from ..astutil import Defs
 from ..cfg import cfg_of, reaching_defs
-from ..core import AnalysisError, attr_chain, kwarg, short, walk_no_nested, walk_stmts
+from ..core import AnalysisError, attr_chain, cshort, kwarg, short, walk_no_nested, walk_stmts
 from ..grouping import GroupFacts
 from ..joins import VARIANTS, JoinFacts
 from ..sites import Resolver, all_sites, vector_valued
@@ -114,13 +114,14 @@ def _writes(ctx) -> None:
 def _table_arith(ctx) -> None:
     prog = ctx.prog
     f = prog.func("table.Table._table_elementwise_operation")
-    loops = [s for s in walk_stmts(f.body) if isinstance(s, ast.For) and short(s.iter) == "zip(self.cols(), result_cols)"]
+    loops = [s for s in walk_stmts(f.body) if isinstance(s, ast.For) and isinstance(s.iter, ast.Call) and short(s.iter.func) == "zip"
+             and len(s.iter.args) == 2 and short(s.iter.args[0]) == "self.cols()" and isinstance(s.iter.args[1], ast.Name)]
     ok = False
     if len(loops) == 1:
         a, b = [e.id for e in loops[0].target.elts]
         ok = any(short(s) == f"{b}._name = {a}._name" for s in loops[0].body)
-        rc = Defs(f).values("result_cols")
-        ok = ok and any(short(v).startswith("tuple((op_func(col, other) for col in self.cols()") or "for col in self.cols()" in short(v) for v in rc)
+        rc = Defs(f).values(loops[0].iter.args[1].id)
+        ok = ok and any(" for _0 in self.cols()" in cshort(v) for v in rc)
     ctx.ob("d.table-scalar", f, "scalar", ok, "result column i named after source column i", loops[0] if loops else f.node,
            message="table (op) scalar no longer copies every source column's stored name onto the result column of the same position")
     # table-table: result name from _resolve_binary_name(left._name, right._name)
@@ -160,7 +161,7 @@ def _construction(ctx) -> None:
     f = prog.func("table.Table.__init__")
     cfg = cfg_of(f)
     problems = []
-    saves = [s for s in f.body if isinstance(s, ast.Assign) and short(s.value).startswith("[vec._name for vec in initial]")]
+    saves = [s for s in f.body if isinstance(s, ast.Assign) and cshort(s.value).startswith("[_0._name for _0 in initial]")]
     copies = [s for s in walk_stmts(f.body) if isinstance(s, ast.Assign) and ".copy()" in short(s.value) and short(s.targets[0]) == "initial"]
     if not saves:
         problems.append("source names are not saved ([vec._name for vec in initial])")
@@ -230,16 +231,21 @@ def _groups(ctx) -> None:
 def _selections(ctx) -> None:
     prog = ctx.prog
     f = prog.func("table.Table.sort_by")
-    ok = any(short(n) == "Vector(new_data, name=col._name)" for n in walk_no_nested(f.node) if isinstance(n, ast.Call)) and \
-        "Vector([], name=col._name) for col in self._underlying" in short(f.node, 20000)
+    rebuild = [lp for lp in f.body if isinstance(lp, ast.For) and short(lp.iter) == "self._underlying" and isinstance(lp.target, ast.Name)]
+    ok = any(isinstance(n, ast.Call) and short(n.func) == "Vector" and kwarg(n, "name") is not None
+             and short(kwarg(n, "name")) == f"{lp.target.id}._name" for lp in rebuild for n in walk_no_nested(lp)) and \
+        any("Vector([], name=_0._name) for _0 in self._underlying" in cshort(n) for n in walk_no_nested(f.node)
+            if isinstance(n, (ast.ListComp, ast.GeneratorExp)))
     ctx.ob("h.table-selections", f, "sort_by", ok, "sorted columns keep their source names (also for the empty table)", f.node,
            message="Table.sort_by does not rebuild every column under its source column's stored name")
     g = prog.func("table.Table.__getitem__")
     # multi-name selection copies columns (copy keeps the name); row selections go through Vector.__getitem__ (keeps the name)
-    n_copy = sum(1 for n in walk_no_nested(g.node) if isinstance(n, ast.Call) and short(n) == "selected_cols.append(col.copy())")
+    n_copy = sum(1 for n in walk_no_nested(g.node) if isinstance(n, ast.Call) and isinstance(n.func, ast.Attribute) and n.func.attr == "append"
+                 and len(n.args) == 1 and isinstance(n.args[0], ast.Call) and isinstance(n.args[0].func, ast.Attribute)
+                 and n.args[0].func.attr == "copy" and not n.args[0].args and not n.args[0].keywords)
     ctx.ob("h.table-selections", g, "column-selection", n_copy >= 3, f"{n_copy} selection sites append col.copy() (name kept)", g.node,
            message="multi-name selection no longer takes plain copies of the selected columns")
-    rows = [n for n in walk_no_nested(g.node) if isinstance(n, ast.GeneratorExp) and short(n) == "(x[key] for x in self._underlying)"]
+    rows = [n for n in walk_no_nested(g.node) if isinstance(n, ast.GeneratorExp) and cshort(n) == "(_0[key] for _0 in self._underlying)"]
     ctx.ob("h.table-selections", g, "row-selection", len(rows) >= 4, f"{len(rows)} row selections index each column (name kept by Vector.__getitem__)",
            g.node, message="row selections no longer index each column with the key (which keeps the column's name)")
 
